@@ -1,0 +1,9 @@
+//go:build verif
+
+// Contracts for package anchor, checked by /verif/engine (gvc).  This file
+// contains comments only; it is compiled only with the "verif" build tag.
+package anchor
+
+//@ func (rec Table) IsEmpty() (yes bool)   props: C06 C16
+//@   ensures yes == (rec.X == 0 && rec.Y == 0)
+//@   modifies nothing
